@@ -7,15 +7,23 @@ import (
 	"fmt"
 	"io"
 	"math/rand"
+	"os"
+	"path/filepath"
 	"sort"
 	"strings"
 	"time"
 
 	"github.com/go-logr/logr"
+	"github.com/spf13/cobra"
+	"github.com/wrgl/wrgl/cmd/wrgl/fetch"
+	"github.com/wrgl/wrgl/cmd/wrgl/utils"
 	"github.com/wrgl/wrgl/pkg/api/utils"
+	"github.com/wrgl/wrgl/pkg/conf"
+	"github.com/wrgl/wrgl/pkg/credentials"
 	"github.com/wrgl/wrgl/pkg/encoding/packfile"
 	"github.com/wrgl/wrgl/pkg/ingest"
 	"github.com/wrgl/wrgl/pkg/objects"
+	"github.com/wrgl/wrgl/pkg/pbar"
 	"github.com/wrgl/wrgl/pkg/prune"
 	"github.com/wrgl/wrgl/pkg/ref"
 	"github.com/wrgl/wrgl/pkg/sorter"
@@ -314,11 +322,35 @@ func opPrune() c13Op {
 	return func(db objects.Store, rs ref.Store) error { return prune.Prune(db, rs, nil) }
 }
 
+// opFetch is one `wrgl fetch origin` process: the exported Fetch of the fetch command (what `wrgl
+// fetch` and `wrgl pull` call) with the default refspec, against a remote reachable at url. Every
+// run gets its own client map (cookies, cached remote refs), as a new process would.
+func opFetch(url string) c13Op {
+	return func(db objects.Store, rs ref.Store) error {
+		if os.Getenv("XDG_CONFIG_HOME") == "" {
+			// the credentials store creates its directory: keep it inside the run's scratch space
+			os.Setenv("XDG_CONFIG_HOME", filepath.Join(os.TempDir(), "c13-xdg"))
+		}
+		cs, err := credentials.NewStore()
+		if err != nil {
+			return err
+		}
+		cm := utils.NewClientMap(cs, logr.Discard())
+		cmd := &cobra.Command{}
+		cmd.SetOut(io.Discard)
+		cmd.SetErr(io.Discard)
+		rem := &conf.Remote{URL: url, Fetch: conf.RefspecSlice{conf.MustParseRefspec("+refs/heads/*:refs/remotes/origin/*")}}
+		u := &conf.User{Name: "a", Email: "e"}
+		return fetch.Fetch(cmd, db, rs, cm, u, "origin", rem, rem.Fetch, false, 0, logr.Discard(), pbar.NewContainer(io.Discard, true))
+	}
+}
+
 // ---- the experiment ---------------------------------------------------------------------------------------
 
 type c13Input struct {
 	Seed     int64           `json:"genSeed"`
 	Kind     string          `json:"kind"`
+	Shape    string          `json:"shape,omitempty"` // which generator built the case ("" = the original four kinds)
 	Universe *c13Universe    `json:"universe"`
 	Init     *c13State       `json:"init"`
 	Writes   [][]interface{} `json:"writes"` // the uninterrupted run's write trace
@@ -336,6 +368,14 @@ type c13Result struct {
 	ErrReported []bool     `json:"errReported"`
 	ErrRerun   []*c13State `json:"errRerun"`
 	ErrRerunOK []bool      `json:"errRerunOk"`
+	// the write trace of each interrupted run itself (kinds whose write order may differ from run to run)
+	Traces [][][]interface{} `json:"traces,omitempty"`
+	// a recovery history: the crash before write k, then a complete `wrgl prune` on the reopened
+	// repository, then the same operation again
+	Pruned        []*c13State `json:"pruned"`
+	PrunedOK      []bool      `json:"prunedOk"`
+	PrunedRerun   []*c13State `json:"prunedRerun"`
+	PrunedRerunOK []bool      `json:"prunedRerunOk"`
 }
 
 func runWithBudget(op c13Op, db *MemStore, rs ref.Store, left int) (*writeBudget, error) {
@@ -344,9 +384,9 @@ func runWithBudget(op c13Op, db *MemStore, rs ref.Store, left int) (*writeBudget
 	return b, err
 }
 
-func c13Experiment(seed int64, kind string, snap *repoSnap, extra []*MemStore, op c13Op, headRefs []string) (*c13Input, Res) {
+func c13Experiment(seed int64, kind, shape string, snap *repoSnap, extra []*MemStore, op c13Op, headRefs []string) (*c13Input, Res) {
 	n := newNamer()
-	in := &c13Input{Seed: seed, Kind: kind}
+	in := &c13Input{Seed: seed, Kind: kind, Shape: shape}
 	res := Guard(func() Res {
 		db0, rs0, close0 := snap.restore()
 		in.Init = n.state(db0, rs0)
@@ -369,8 +409,11 @@ func c13Experiment(seed int64, kind string, snap *repoSnap, extra []*MemStore, o
 		W := b.writes
 		for k := 0; k < W; k++ {
 			dbk, rsk, closek := snap.restore()
-			_, err := runWithBudget(op, dbk, rsk, k)
+			bk, err := runWithBudget(op, dbk, rsk, k)
 			out.Faulted = append(out.Faulted, err != nil)
+			if kind == "fetch" {
+				out.Traces = append(out.Traces, n.traceOps(bk.trace))
+			}
 			out.Crashes = append(out.Crashes, n.state(dbk, rsk))
 			// reopen and run the same operation again, to completion
 			_, err2 := runWithBudget(op, dbk, rsk, -1)
@@ -387,6 +430,16 @@ func c13Experiment(seed int64, kind string, snap *repoSnap, extra []*MemStore, o
 			out.ErrRerunOK = append(out.ErrRerunOK, err3 == nil)
 			out.ErrRerun = append(out.ErrRerun, n.state(dbe, rse))
 			closee()
+			// the same crash, then a prune of the reopened repository, then the operation again
+			dbp, rsp, closep := snap.restore()
+			runWithBudget(op, dbp, rsp, k)
+			errp := prune.Prune(dbp, rsp, nil)
+			out.PrunedOK = append(out.PrunedOK, errp == nil)
+			out.Pruned = append(out.Pruned, n.state(dbp, rsp))
+			_, err4 := runWithBudget(op, dbp, rsp, -1)
+			out.PrunedRerunOK = append(out.PrunedRerunOK, err4 == nil)
+			out.PrunedRerun = append(out.PrunedRerun, n.state(dbp, rsp))
+			closep()
 		}
 		// the universe may have grown (orphans created by re-runs): describe again
 		return Ok(out)
@@ -397,7 +450,13 @@ func c13Experiment(seed int64, kind string, snap *repoSnap, extra []*MemStore, o
 	return in, res
 }
 
-func buildC13(seed int64) (kind string, snap *repoSnap, extra []*MemStore, op c13Op, heads []string, err error) {
+// buildC13 builds the repository and the operation of one case. shape selects the generator:
+// "" = one of the original four kinds; "garbage" = the same, in a repository that also holds an
+// unreachable commit (a deleted branch), so that a prune between the crash and the re-run has work
+// to do at every crash point; "fetch" = the real fetch command against the reference server.
+// cleanup releases what the operation needs while it runs (the reference server).
+func buildC13(seed int64, shape string) (kind string, snap *repoSnap, extra []*MemStore, op c13Op, heads []string, cleanup func(), err error) {
+	cleanup = func() {}
 	r := rand.New(rand.NewSource(seed))
 	db := NewMemStore()
 	rs, closeRS := NewRefStore()
@@ -412,6 +471,15 @@ func buildC13(seed int64) (kind string, snap *repoSnap, extra []*MemStore, op c1
 	// initial history: main with one or two commits
 	t0 := mkTable([]int{3, 30, 270}[r.Intn(3)])
 	if err = opCommit(t0.CSV(0), t0.PK, 1, "main")(db, rs); err != nil {
+		return
+	}
+	if shape == "fetch" {
+		kind = "fetch"
+		extra, op, cleanup, err = buildC13Fetch(r, db, rs, t0, mkTable)
+		if err != nil {
+			return
+		}
+		snap = takeSnap(db, rs)
 		return
 	}
 	kinds := []string{"commit", "merge-commit", "receive", "prune"}
@@ -508,20 +576,101 @@ func buildC13(seed int64) (kind string, snap *repoSnap, extra []*MemStore, op c1
 		ref.DeleteHead(rs, "gone")
 		op = opPrune()
 	}
+	if shape == "garbage" && kind != "prune" {
+		// own stream: the draws above stay what they are without the garbage
+		g := rand.New(rand.NewSource(seed ^ 0x67617262))
+		tg := GenTable(g, 2, []int{2, 20, 260}[g.Intn(3)], []int{0}, 0)
+		if err = opCommit(tg.CSV(0), tg.PK, 1, "gone")(db, rs); err != nil {
+			return
+		}
+		ref.DeleteHead(rs, "gone")
+	}
 	snap = takeSnap(db, rs)
 	return
 }
 
+// buildC13Fetch: the local repository has main (one commit, table t0) and possibly the
+// remote-tracking ref of an earlier fetch; the remote is 1..3 commits ahead on main, may have a
+// second branch forked from any commit of main, and 0..2 tags on any of its commits (tags are not
+// covered by the default refspec: fetch follows them when their commit is present locally).
+func buildC13Fetch(r *rand.Rand, db *MemStore, rs ref.Store, t0 *TableSpec, mkTable func(int) *TableSpec) (extra []*MemStore, op c13Op, cleanup func(), err error) {
+	cleanup = func() {}
+	remote := NewMemStore()
+	for _, k := range db.Keys() {
+		v, _ := db.Get([]byte(k))
+		remote.Set([]byte(k), v)
+	}
+	rrs, closeR := NewRefStore()
+	c0, _ := ref.GetHead(rs, "main")
+	rrs.Set("heads/main", c0)
+	tick := 0
+	saved := commitClock
+	commitClock = func() time.Time { tick++; return fixedTime.Add(time.Duration(tick) * time.Second) }
+	defer func() { commitClock = saved }()
+	commits := [][]byte{c0}
+	cur := t0
+	next := func(branch, tag string) error {
+		t1 := cloneSpec(cur)
+		t1.Rows[r.Intn(len(t1.Rows))][1] = tag
+		if r.Intn(4) == 0 {
+			t1 = mkTable([]int{2, 20, 270}[r.Intn(3)])
+		}
+		if e := opCommit(t1.CSV(0), t1.PK, 1, branch)(remote, rrs); e != nil {
+			return e
+		}
+		h, _ := ref.GetHead(rrs, branch)
+		commits = append(commits, h)
+		cur = t1
+		return nil
+	}
+	nAhead := 1 + r.Intn(3)
+	for i := 0; i < nAhead; i++ {
+		if err = next("main", fmt.Sprintf("r%d", i)); err != nil {
+			closeR()
+			return
+		}
+	}
+	if r.Intn(3) == 0 {
+		rrs.Set("heads/dev", commits[r.Intn(len(commits))])
+		if err = next("dev", "dev"); err != nil {
+			closeR()
+			return
+		}
+	}
+	nTags := []int{0, 1, 1, 2}[r.Intn(4)]
+	for i := 0; i < nTags; i++ {
+		ref.SaveTag(rrs, fmt.Sprintf("v%d", i+1), commits[r.Intn(len(commits))])
+	}
+	if r.Intn(2) == 0 {
+		ref.SaveFetchRef(rs, "remotes/origin/main", c0, "a", "e", "origin", "storing head")
+	}
+	srv := NewRefServer(remote, rrs, []uint64{0, 1, 500}[r.Intn(3)], false)
+	cleanup = func() { srv.Close(); closeR() }
+	return []*MemStore{remote}, opFetch(srv.URL()), cleanup, nil
+}
+
 func runC13(ctx *Ctx) {
 	seed := ctx.Seed*1000003 + int64(ctx.Idx)
-	kind, snap, extra, op, heads, err := buildC13(seed)
+	shape := ""
+	switch ctx.Idx % 4 {
+	case 1:
+		shape = "fetch"
+	case 3:
+		shape = "garbage"
+	}
+	kind, snap, extra, op, heads, cleanup, err := buildC13(seed, shape)
 	if err != nil {
-		ctx.Emit("crash", map[string]interface{}{"genSeed": seed}, Err("build"), false)
+		ctx.Emit("crash", map[string]interface{}{"genSeed": seed, "shape": shape}, Err("build"), false)
 		return
 	}
-	in, res := c13Experiment(seed, kind, snap, extra, op, heads)
+	defer cleanup()
+	in, res := c13Experiment(seed, kind, shape, snap, extra, op, heads)
 	nt := len(in.Writes) > 2
-	ctx.Emit("crash", in, res, nt, "kind="+kind)
+	tags := []string{"kind=" + kind}
+	if shape != "" {
+		tags = append(tags, "shape="+shape)
+	}
+	ctx.Emit("crash", in, res, nt, tags...)
 }
 
 func corpusC13(ctx *Ctx, op string, raw json.RawMessage) {
@@ -529,10 +678,11 @@ func corpusC13(ctx *Ctx, op string, raw json.RawMessage) {
 	if err := json.Unmarshal(raw, &in); err != nil {
 		panic(err)
 	}
-	kind, snap, extra, o, heads, err := buildC13(in.Seed)
+	kind, snap, extra, o, heads, cleanup, err := buildC13(in.Seed, in.Shape)
 	if err != nil {
 		return
 	}
-	in2, res := c13Experiment(in.Seed, kind, snap, extra, o, heads)
+	defer cleanup()
+	in2, res := c13Experiment(in.Seed, kind, in.Shape, snap, extra, o, heads)
 	ctx.Emit("crash", in2, res, true, "corpus", "kind="+kind)
 }
